@@ -66,7 +66,7 @@ def ActiveDims.indices (ad : ActiveDims) (d : Nat) : Option (List Nat) :=
 
 section
 variable {α : Type} [Add α] [Sub α] [Mul α] [Div α] [Neg α] [OfNat α 0] [OfNat α 1]
-  [OfScientific α] [Max α] [Transc α]
+  [OfScientific α] [Max α] [LT α] [DecidableLT α] [Transc α]
 
 /-- `select_active_dims`: the sub-list of columns a node works on (`[]` when the index is out of
     range — the driver reports that case as an error instead of evaluating). -/
@@ -200,7 +200,9 @@ def Cov.kGrad : Cov α → List α → List α → List α
   | .pow l p ad, x, y =>
     let xs := select ad x; let ys := select ad y
     let bk := l.k xs ys
-    expand ad y.length ((l.kGrad xs ys).map fun bg => p * rpow bk (p - 1) * bg)
+    -- `where(base_k > 0, p * base_k ** (p - 1) * base_grad, 0.0)`: a base value that underflowed to 0
+    -- (or is not positive) contributes 0 instead of `0 ** (p - 1) * 0 = nan`
+    expand ad y.length ((l.kGrad xs ys).map fun bg => if 0 < bk then p * rpow bk (p - 1) * bg else 0)
 
 /-- Every index of every node is in range for the width it sees. -/
 def Cov.WF : Cov α → Nat → Bool
